@@ -153,4 +153,13 @@ def byline_judge(scenario, agree, p, nlines):
                 "the run ends when every member has stopped; on abort every member is saved before the exception is re-raised; complete_run only on a normal end)"))
     out.append(("yields", ys == wy, f"next_by_line ({mode}) with {cfg}: yields {ys}, documented {wy} ({'intersection' if agree else 'union'} of the members' decisions per line)"))
     out.append(("outcome", p.result[0] == outcome, f"next_by_line with {cfg}: ends in {p.result}, expected {outcome}"))
+    # each member's result receives exactly the lines that member matched, and only when the caller asked to collect
+    collect = p.__dict__.get("collect", False)
+    ch = dict(p.choices)
+    considered = [v for kk, v in RM.events(p) if kk == "_consider_line"]
+    wc = [(m, ln) for m, ln in considered if collect and ch.get(f"matched({m},{ln})", scenario in ("stops_a", "stops_b", "abort"))]
+    gc = [v for k, kk, v in p.trace if k == "call" and kk == "collected"]
+    if scenario != "abort":
+        out.append(("collected", gc == wc, f"next_by_line(collect={collect}, {mode}) with {cfg}: lines appended to the members' results {gc}, documented {wc} "
+                    "(a member's result holds the lines that member matched, and none when the caller does not collect)"))
     return out
